@@ -2,6 +2,7 @@ package vnet
 
 import (
 	"fmt"
+	"math"
 	"sort"
 	"time"
 
@@ -387,6 +388,9 @@ func (w *World) ByzAction(t *rapid.T, profile string) {
 		w.byzForgedFlood(t)
 		return
 	}
+	if rapid.IntRange(0, 7).Draw(t, "byzpoison") == 0 && w.byzPoisonNext(t) {
+		return
+	}
 	id := cfg.Byz[rapid.IntRange(0, len(cfg.Byz)-1).Draw(t, "byzid")]
 	// target instance: that of some honest node, or the next one
 	var insts []uint64
@@ -686,6 +690,11 @@ type CloseResult struct {
 	RoundAtStart  uint64
 	MaxRoundAfter uint64
 	BoundExceeded bool
+	// Stalled: the decided participants have nothing in flight and will never send again,
+	// and for longer than any phase timeout of the rounds reached (virtual time) no undecided
+	// participant changed its progress, decided or emitted anything new
+	Stalled     bool
+	StalledNote string
 }
 
 // Close runs the timely regime: every pending and future message is delivered
@@ -724,6 +733,7 @@ func (w *World) Close(t *rapid.T, maxSteps int, roundBound uint64) CloseResult {
 	}
 	w.Pool = kept
 	w.Personas = nil // the coalition is silent from now on
+	lastFP, lastChange := "", w.Now
 	for steps := 0; steps < maxSteps; steps++ {
 		if w.AllDecided() {
 			res.AllDecided = true
@@ -763,6 +773,32 @@ func (w *World) Close(t *rapid.T, maxSteps int, roundBound uint64) CloseResult {
 		if r := w.maxHonestRound(); r > res.MaxRoundAfter {
 			res.MaxRoundAfter = r
 		}
+		// stall detection
+		fp := ""
+		for _, n := range w.Nodes {
+			fp += fmt.Sprintf("%v/%d/%d|", n.P.Progress().Instant, len(n.Sent), len(n.Decided))
+		}
+		if fp != lastFP {
+			lastFP, lastChange = fp, w.Now
+		} else if w.Cfg.Exponent > 0 {
+			quiet := true
+			for _, p := range w.Pool {
+				if from, ok := w.ByIdx[p.Msg.Sender]; ok {
+					if _, done := w.Nodes[from].Decided[w.Cfg.Last()]; done {
+						quiet = false // a decided participant still has a message in flight
+						break
+					}
+				}
+			}
+			if quiet {
+				limit := 8*time.Duration(float64(delta)*math.Pow(w.Cfg.Exponent, float64(w.maxHonestRound()+2))) + 4*w.Cfg.RebMax
+				if w.Now.Sub(lastChange) > limit {
+					res.Stalled = true
+					res.StalledNote = fmt.Sprintf("no progress, decision or new emission for %v of virtual time (limit %v)", w.Now.Sub(lastChange), limit)
+					return res
+				}
+			}
+		}
 		if roundBound > 0 {
 			if r := w.maxHonestRound(); r > res.RoundAtStart+roundBound {
 				res.BoundExceeded = true
@@ -797,4 +833,56 @@ func (w *World) suppVariant(m *gpbft.GMessage) *gpbft.GMessage {
 	out.Vote.SupplementalData.Commitments[31] ^= 0x01
 	out.Signature = vcrypto.RawSign(ic.Table[i].PubKey, out.Vote.MarshalForSigning(w.Cfg.NN))
 	return out
+}
+
+
+// byzPoisonNext: a coalition member sends a validly signed round-0 vote for an instance that
+// some honest participants have not started yet, over a chain that does not extend that
+// instance's base (or over other supplemental data). Such a message passes validation while
+// the instance is still in the future (the base is not known then), is queued, and must be
+// dropped - alone - when the instance starts.
+func (w *World) byzPoisonNext(t *rapid.T) bool {
+	cfg := w.Cfg
+	var lo, hi uint64
+	first := true
+	for _, n := range w.Nodes {
+		if !n.Started {
+			continue
+		}
+		pi := n.P.Progress().ID
+		if first || pi < lo {
+			lo = pi
+		}
+		if first || pi > hi {
+			hi = pi
+		}
+		first = false
+	}
+	if first {
+		return false
+	}
+	inst := lo + 1
+	if rapid.Bool().Draw(t, "poisonfar") && hi+1 > inst {
+		inst = hi + 1
+	}
+	if cfg.Inst(inst) == nil {
+		return false
+	}
+	id := cfg.Byz[rapid.IntRange(0, len(cfg.Byz)-1).Draw(t, "poisonid")]
+	foreign := PathChain(&gpbft.TipSet{Epoch: 3, Key: []byte("foreign-base"), PowerTable: gpbft.MakeCid([]byte("f"))}, []int{0})
+	phase := rapid.SampledFrom([]gpbft.Phase{gpbft.QUALITY_PHASE, gpbft.QUALITY_PHASE, gpbft.PREPARE_PHASE}).Draw(t, "poisonphase")
+	m := w.ByzMessage(id, inst, 0, phase, foreign, nil)
+	if m == nil {
+		return false
+	}
+	if rapid.IntRange(0, 3).Draw(t, "poisonsupp") == 0 {
+		m = w.suppVariant(m)
+	}
+	var all []int
+	for i := range w.Nodes {
+		all = append(all, i)
+	}
+	w.SendByz(m, all)
+	w.Stats.Poisons++
+	return true
 }
